@@ -299,6 +299,23 @@ def _lower_once(text, ctr, log, ctx):
         if r is not None:
             log.append(("R11", ch.src()))
             return text[:ch.start] + r + text[ch.end:]
+    m20 = re.search(r"\bSome\s*\(\s*&\s*([a-z_][a-z0-9_]*)\s*\)\s*=>", text)
+    if m20:
+        toks = lex(text)
+        mm = match_map(toks)
+        st = [i for i, t in enumerate(toks) if t.start >= m20.end()][0]
+        j = st
+        if toks[j].text == "{":
+            e = toks[mm[j]].end
+        else:
+            while j < len(toks) and toks[j].text not in (",", "}"):
+                if toks[j].text in ("(", "[", "{"):
+                    j = mm[j]
+                j += 1
+            e = toks[j - 1].end
+        x = m20.group(1)
+        log.append(("R20", m20.group(0)))
+        return text[:m20.start()] + "Some(rp_%s) => { let %s = *rp_%s; %s }" % (x, x, x, text[toks[st].start:e]) + text[e:]
     mu = re.search(r"\bfor\s+_\s+in\b", text)
     if mu:
         n = ctr.next("R17")
@@ -490,7 +507,10 @@ def _r19(ch, k, ctr):
     cl = parse_closure(arg)
     if cl is not None:
         pat, body, _ = cl
-        app = "{ let %s = ov_%d; %s }" % (pat, n, body)
+        if pat.startswith("&") and not pat.startswith("&mut"):
+            app = "{ let %s = *ov_%d; %s }" % (pat[1:].strip(), n, body)   # `|&x|` on a Copy item
+        else:
+            app = "{ let %s = ov_%d; %s }" % (pat, n, body)
     else:
         if not re.match(r"^[A-Za-z_][A-Za-z0-9_:<>]*$", arg):
             return None
